@@ -347,7 +347,9 @@ func (f *c04fx) runBrw(n int) {
 			m = 0
 		}
 		sel := append([]int{}, perm[:m]...)
-		sort.Slice(sel, func(x, y int) bool { return strings.Compare(string(f.w.Addrs[sel[x]][:]), string(f.w.Addrs[sel[y]][:])) < 0 })
+		sort.Slice(sel, func(x, y int) bool {
+			return strings.Compare(string(f.w.Addrs[sel[x]][:]), string(f.w.Addrs[sel[y]][:])) < 0
+		})
 		var members []blockchain.VerifC04Member
 		var mtoks []string
 		mode := r.Intn(4)
@@ -725,7 +727,9 @@ func (f *c04fx) runInvitations(n int) {
 			inv[a] = iv
 			ks = append(ks, k)
 		}
-		sort.Slice(ks, func(x, y int) bool { return strings.Compare(string(f.w.Addrs[ks[x]][:]), string(f.w.Addrs[ks[y]][:])) < 0 })
+		sort.Slice(ks, func(x, y int) bool {
+			return strings.Compare(string(f.w.Addrs[ks[x]][:]), string(f.w.Addrs[ks[y]][:])) < 0
+		})
 		var ps []c04payee
 		var tot32 float32
 		for _, k := range ks {
